@@ -364,6 +364,18 @@ pub fn run_check<P: Property>(p: &P, opts: &RunOpts) -> i32 {
         }
     }
 
+    // 1b. Determinism smoke test: the first runs are evaluated twice; a differing event log means
+    // the harness lost control of some source of nondeterminism - that is never a verdict.
+    for i in 0..16u64.min(total_runs) {
+        let case = p.generate(rng::mix(opts.seed, i), i);
+        let a = p.evaluate(&case);
+        let b = p.evaluate(&case);
+        if a.log != b.log || a.violation != b.violation {
+            println!("HARNESS-ERROR: run {i} is not deterministic (two evaluations of the same case differ)");
+            return 2;
+        }
+    }
+
     // 2. Seeded search.
     let next = AtomicU64::new(0);
     let limit = AtomicU64::new(total_runs);
